@@ -88,7 +88,14 @@ class BoolGen(object):
                 return '\\isundefined{\\%s}' % n, False
             return '\\isundefined{\\zqundef%s}' % alpha(r.randint(0, 4)), True
         if not self.bools or r.random() < 0.4:
-            self.bools['zb' + alpha(len(self.bools))] = r.random() < 0.5
+            name = 'zb' + alpha(len(self.bools))
+            if r.random() < 0.25:
+                # names that are also the names of macros (the boolean `par` is the switch \ifpar; \par is something else)
+                free = [x for x in ('b', 'c', 'par', 'item', 'section', 'twocolumn', 'em', 'index', 'relax') if x not in self.bools]
+                if free:
+                    name = r.choice(free)
+                    self.features.add('boolean-named-like-a-macro')
+            self.bools[name] = r.random() < 0.5
         n = r.choice(sorted(self.bools))
         return '\\boolean{%s}' % n, self.bools[n]
 
@@ -134,8 +141,23 @@ class BoolGen(object):
         for n, v in sorted(self.strs.items()):
             s += '\\def\\%s{%s}' % (n, v)
         for n, v in sorted(self.bools.items()):
-            decl = self.r.choice(['newboolean', 'newboolean', 'provideboolean'])
-            s += '\\%s{%s}\\setboolean{%s}{%s}' % (decl, n, n, 'true' if v else 'false')
+            decl = self.r.choice(['newboolean', 'newboolean', 'provideboolean', 'newif'])
+            if decl == 'newif':
+                # a TeX switch: \boolean{n} tests \ifn
+                s += '\\newif\\if%s ' % n
+                self.features.add('boolean-from-newif')
+            else:
+                s += '\\%s{%s}' % (decl, n)
+            k = self.r.random()
+            if k < 0.3:
+                # set with the switch's own setters, passing through the other state first
+                s += '\\%s%s \\%s%s ' % (n, 'false' if v else 'true', n, 'true' if v else 'false')
+                self.features.add('boolean-set-by-setter')
+            elif k < 0.5 and decl != 'newif':
+                s += '\\setboolean{%s}{%s}\\setboolean{%s}{%s}' % (n, 'false' if v else 'true', n, 'True' if v else 'FALSE')
+                self.features.add('boolean-set-twice')
+            else:
+                s += '\\setboolean{%s}{%s}' % (n, 'true' if v else 'false')
             if self.r.random() < 0.3:
                 # the declare-if-missing idiom on a boolean that exists already: its value stays
                 s += '\\provideboolean{%s}' % n
